@@ -6,7 +6,7 @@
    (PyError), or a decoded UPDATE with no announced route and the treat-as-withdraw mark; never End-of-RIB. *)
 From Coq Require Import ZArith Bool List.
 From ExaV Require Import gen.Gen_AttrTable gen.Gen_NlriRegistry model.Model_Nlri model.Model_Update spec.Spec_Wire
-  proofs.Proofs_Nlri proofs.Proofs_Update.
+  proofs.Proofs_Nlri proofs.Proofs_Update proofs.Proofs_Update2 proofs.Proofs_Update3 proofs.Proofs_Update4.
 Import ListNotations.
 Open Scope Z_scope.
 
@@ -38,6 +38,40 @@ Theorem C08_rfc7606_partial : forall opq s other b wb ab nb l r,
   flags_conflict (r_code r) (r_flags r) || value_malformed other (s_asn4 s) (r_code r) (r_val r) = true ->
   no_announce (dec_update opq s b).
 Proof. exact rfc7606_taw. Qed.
+
+(* ---- RFC 7606 7.11 / RFC 4760, the MP attributes.  Sessions of the unicast, multicast and labelled IP families
+   (plain_sess), any ADD-PATH / RFC 8950 negotiation; b any byte string of bytes other than the 11-octet End-of-RIB
+   marker; r the first MP_REACH_NLRI (14) or MP_UNREACH_NLRI (15) of the block; malformed for the reference: Optional /
+   Transitive bits in conflict, or MP_REACH framing broken (shorter than its fixed fields, family not negotiated,
+   Length of Next Hop not one the <AFI, SAFI> allows with the negotiated RFC 8950 rows, next hop running past the
+   attribute), or MP_UNREACH shorter than 3 octets / family not negotiated.  Then the session is reset or nothing is
+   announced.  (mpls-vpn families: correspondence only.) *)
+Theorem C08_rfc7606_mp_partial : forall opq s b wb ab nb l r,
+  plain_sess s -> wfb b -> sections b = Some (wb, ab, nb) -> tlvs (length ab) ab = Some l ->
+  find_raw l (r_code r) = Some r -> (r_code r = 14 \/ r_code r = 15) ->
+  flags_conflict (r_code r) (r_flags r)
+  || ((r_code r =? 14) && mp_reach_malformed (rs_of s) (r_val r))
+  || ((r_code r =? 15) && mp_unreach_malformed (rs_of s) (r_val r)) = true ->
+  (zlen b =? EOR_PREFIX_LENGTH) && is_prefix EOR_PREFIX b = false ->
+  no_announce (dec_update opq s b).
+Proof. exact rfc7606_mp. Qed.
+
+(* ---- RFC 7606, attribute discard.  ab: any byte string of bytes (the Path Attributes field) whose TLVs l carry no
+   code twice and are each acceptable: well formed for the reference (and of a modelled type), OR a malformed
+   ATOMIC_AGGREGATE / AGGREGATOR / AS4_AGGREGATOR (flags in conflict or length rule broken: discardable).  Then either
+   the parser refuses (NOTIFICATION, or treat-as-withdraw recorded - the tree does that for a zero-length AGGREGATOR,
+   which is stricter), or the collection it builds, the INTERNAL_DISCARD mark left aside, is entry by entry and in order
+   the reference's for the block WITHOUT the discardable attributes: exactly those are missing, every other attribute
+   is reported as received.  `_partial`: stated on the attribute collection of the walk; that the routes of such an
+   UPDATE are then announced and stored unchanged is tied by the correspondence and the oracle of harness/c08.py. *)
+Theorem C08_discard_class_partial : forall opq s other ab l,
+  plain_sess s -> wfb ab -> tlvs (length ab) ab = Some l ->
+  forallb (acceptable other s) l = true -> nodup_codes l = true ->
+  parse_refuses (parse (length ab) true opq s ab [])
+  \/ exists m, parse (length ab) true opq s ab [] = POk m
+       /\ map entry_of (unmarked m) =
+          flat_map (full_entry (rs_of s)) (filter (fun r => negb (discardable other s r)) l).
+Proof. exact discard_class. Qed.
 
 (* whatever the bytes: a decoded UPDATE that carries the treat-as-withdraw mark announces nothing *)
 Theorem C08_treat_as_withdraw_announces_nothing : forall opq s b u,
@@ -88,6 +122,8 @@ Proof. exact w_med3_fixed. Qed.
 Print Assumptions C08_no_overrun.
 Print Assumptions C08_no_overrun_refuted.
 Print Assumptions C08_rfc7606_partial.
+Print Assumptions C08_rfc7606_mp_partial.
+Print Assumptions C08_discard_class_partial.
 Print Assumptions C08_treat_as_withdraw_announces_nothing.
 Print Assumptions C08_rfc7606_pinned_refuted.
 Print Assumptions C08_rfc7606_refuted.
